@@ -24,6 +24,10 @@ def native(pattern, label=None):
 
 
 def install(ex):
+    from . import iters
+    if not getattr(install, 'done', False):
+        iters.install()
+        install.done = True
     ex.natives = list(NATIVES)
     ex.native_cache = {}
 
